@@ -297,6 +297,10 @@ def run(ctx):
             run_demo(ctx, 'demo_graphio.py', [1 + ctx.seed], 'c02-message-passing-order-vs-model',
                      'compute_bfs_ordering and the array pass of message_passing against the model (order, messages, values)')
         if ctx.n_new() == 0:
+            run_demo(ctx, 'demo_tr5clt.py', [1 + ctx.seed], 'c02-clt-loops-generated',
+                     'BinaryCLT.message_passing: implementation = the LOOP generated from the source = fourth-wave definitions = model',
+                     env_extra=dict(TR5_MAXN='4' if ctx.tier == 'quick' else '5'))
+        if ctx.n_new() == 0:
             run_demo(ctx, 'demo_tr4.py', [1 + ctx.seed], 'c02-code-vs-generated-vs-model-4',
                      'BinaryCLT log_likelihood / mpe / message_passing / bfs order vs generated definitions vs model', env_extra=dict(DEMO_SECTIONS='b'))
 
